@@ -12,7 +12,7 @@ use serde_json::json;
 use std::path::{Path, PathBuf};
 use std::process::{Command, Stdio};
 use std::sync::Arc;
-use std::time::{Duration, Instant};
+use std::time::Duration;
 
 #[derive(Clone, Debug, PartialEq, Serialize, Deserialize)]
 pub struct CorruptCase {
@@ -123,27 +123,14 @@ fn run_probe(db: &Path, cfg_file: &Path, keys_file: &Path, absolute: bool) -> Pr
     if absolute {
         cmd.arg("absolute");
     }
-    let mut child = match crate::util::spawn_child(cmd.stdout(Stdio::piped()).stderr(Stdio::piped())) {
+    let child = match crate::util::spawn_child(cmd.stdout(Stdio::piped()).stderr(Stdio::piped())) {
         Ok(c) => c,
         Err(e) => return Probe { out: None, status: format!("spawn failed: {e}") },
     };
-    let t0 = Instant::now();
-    let limit = Duration::from_secs(30);
-    loop {
-        match child.try_wait() {
-            Ok(Some(_)) => break,
-            Ok(None) => {
-                if t0.elapsed() > limit {
-                    let _ = child.kill();
-                    let _ = child.wait();
-                    return Probe { out: None, status: "hang (no answer within 30 s)".into() };
-                }
-                std::thread::sleep(Duration::from_millis(2));
-            }
-            Err(e) => return Probe { out: None, status: format!("wait failed: {e}") },
-        }
-    }
-    let o = child.wait_with_output();
+    let o = match crate::util::wait_child_output(child, Duration::from_secs(30), "the probe process") {
+        Err(e) if e.kind() == std::io::ErrorKind::TimedOut => return Probe { out: None, status: "hang (no answer within 30 s)".into() },
+        other => other,
+    };
     match o {
         Ok(o) => {
             let text = String::from_utf8_lossy(&o.stdout).to_string();
